@@ -787,6 +787,14 @@ void profile_history(RunCtx& ctx)
             sig += std::to_string(client_of[op.session]) + ":" + std::to_string(op.call.entry) + ":" +
                    (op.call.alloc_fail_at > 0 ? "A" : "-") + std::to_string(op.jump_family) + ",";
         ctx.event(sig);
+        ctx.interleaving_hash = fnv1a(sig) | 1;
+        // reach: distinct (previous call, call, fault) triples across the batch
+        int prev = -1;
+        for (auto& op : kept) {
+            const char* fk = op.call.alloc_fail_at > 0 ? "alloc" : (op.call.sched.fault_at ? io_fault_name(op.call.sched.fault_kind) : (op.call.sink_fail_after >= 0 ? "sink" : "-"));
+            ctx.count(std::string{"triple:"} + (prev < 0 ? "start" : entry_name(prev)) + ">" + entry_name(op.call.entry) + ":" + fk);
+            prev = op.call.entry;
+        }
     }
     // ---- references: each session alone, in a pristine process ----
     if (UTAP::tracker.position != 0) {
